@@ -165,13 +165,13 @@ func (td *ContainerTypeDef) Deserialize(dr *codec.DecodingReader) (View, error) 
 	}
 	// Deserialize the dynamic part: for each offset, get the size and deserialize the element
 	for i, item := range offsets {
-		var size uint32
+		var size uint64
 		if i+1 == len(offsets) {
-			size = uint32(scope) - item.offset
+			size = scope - uint64(item.offset)
 		} else {
-			size = offsets[i+1].offset - item.offset
+			size = uint64(offsets[i+1].offset - item.offset)
 		}
-		sub, err := dr.SubScope(uint64(size))
+		sub, err := dr.SubScope(size)
 		if err != nil {
 			return nil, err
 		}
